@@ -1,7 +1,7 @@
 (* the oracle against the declarative notion of the cyclic class: WalkEncIff.walk_decomposition of an integer instance without ignore list *)
 From Coq Require Import List NArith ZArith QArith Qround Lqa Bool Arith Lia.
 Import ListNotations.
-From FP Require Import Lin Blocks BlocksProofs PathEnc Euler EulerProofs1 EulerProofs4 PathEncProofs PathEncComplete WalkEncRows WalkEncRowsProofs
+From FP Require Import Lin Blocks BlocksProofs PathEnc Euler EulerProofs1 EulerProofs4 PathEncProofs PathEncComplete WalkEncRows WalkEncRowsProofs ErrEncIgnore
                        WalkTree WalkEncComplete WalkEncIff WalkOracle.
 Set Default Timeout 60.
 Local Close Scope Q_scope.
@@ -73,6 +73,24 @@ Section Bridge.
         rewrite app_nth1 by lia. reflexivity. }
       rewrite El. reflexivity.
   Qed.
+  Theorem iwd_gives_decomposition_walks (l : list (list node * nat)) : iwd0 E s t (kept_edges I) f l -> c_k I = length l ->
+    exists P wt, walk_decomposition I P wt /\ forall i, In i (layers (c_k I)) -> exists c, In c l /\ P i = fst c.
+  Proof.
+    intros [Hw Hf] Hk. set (P := fun i : N => fst (nth (N.to_nat i) l ([], 0))). set (z := fun i : N => snd (nth (N.to_nat i) l ([], 0))).
+    exists P, (fun i => qn (z i)). split; [split; [|split]|].
+    - intros i Hi. apply in_layers in Hi. destruct Hi as (n & Hn & ->). unfold P. rewrite Nat2N.id. apply Hw. apply nth_In. lia.
+    - intros i _. split; [unfold qn; change 0%Q with (inject_Z 0); rewrite <- Zle_Qle; lia|]. intros _. exists (Z.of_nat (z i)). reflexivity.
+    - intros e He. rewrite <- (total_as_sum P (fun i => qn (z i)) z e (layers (c_k I)) (fun i _ => Qeq_refl _)).
+      rewrite (Hflow e He). rewrite <- (Hf e He). unfold qn. apply (f_equal (fun x => inject_Z (Z.of_nat x))) || idtac.
+      assert (El : map (fun i => (P i, z i)) (layers (c_k I)) = l).
+      { unfold layers. rewrite map_map, Hk. clear. unfold P, z.
+        induction l as [|c r IH] using rev_ind; [reflexivity|].
+        rewrite app_length. cbn [length]. rewrite Nat.add_1_r, seq_S, map_app. cbn [map]. rewrite Nat2N.id, app_nth2, Nat.sub_diag by lia. cbn [nth].
+        rewrite <- surjective_pairing. f_equal. rewrite <- IH at 2. apply map_ext_in. intros n Hn. apply in_seq in Hn. rewrite !Nat2N.id.
+        rewrite app_nth1 by lia. reflexivity. }
+      rewrite El. reflexivity.
+    - intros i Hi. apply in_layers in Hi. destruct Hi as (n & Hn & ->). exists (nth n l ([], 0)). split; [apply nth_In; lia|]. unfold P. rewrite Nat2N.id. reflexivity.
+  Qed.
 End Bridge.
 
 Definition kfdc_with_k (I : kfdc_inst) (k : nat) : kfdc_inst :=
@@ -112,4 +130,84 @@ Proof.
     + apply (iwd_gives_decomposition (kfdc_with_k I k) (fnat fl) Hflow l Hl). cbn [kfdc_with_k c_k]. symmetry. exact Hlen.
     + intros j P wt HD. destruct (Hfwd j P wt HD) as (l' & Hl' & Hlen'). specialize (H3 l' Hl'). lia.
   - intros j P wt HD. destruct (Hfwd j P wt HD) as (l' & Hl' & Hlen'). specialize (H l' Hl'). lia.
+Qed.
+
+(* ================================================================================================================= *)
+(* with a user ignore list: decompositions whose walks pass every edge that is not kept at most capn(e) times *)
+Definition ign_within_caps (I : kfdc_inst) (capn : PathEnc.edge -> nat) (P : N -> list node) : Prop :=
+  forall i e, In i (layers (c_k I)) -> In e (g_edges (c_graph I)) -> ~ In e (kept_edges I) -> count_e e (pairs (P i)) <= capn e.
+
+Section BridgeIgn.
+  Variable I : kfdc_inst.
+  Variable f : PathEnc.edge -> nat.
+  Variable capn : PathEnc.edge -> nat.
+  Let G := c_graph I.
+  Let E := g_edges G.
+  Let s := g_src G.
+  Let t := g_snk G.
+  Hypothesis Hint : c_int I = true.
+  Hypothesis Hflow : forall e, In e (kept_edges I) -> (flow_of I e == qn (f e))%Q.
+
+  Theorem decomposition_gives_iwd_caps (P : N -> list node) (wt : N -> Q) : walk_decomposition I P wt -> ign_within_caps I capn P ->
+    exists l, iwd E s t (kept_edges I) f capn l /\ length l <= c_k I.
+  Proof.
+    intros (HP & Hw & Hf) Hcap. set (z := fun i => Z.to_nat (Qfloor (wt i))). set (L := layers (c_k I)).
+    assert (Hz : forall i, In i L -> (wt i == qn (z i))%Q).
+    { intros i Hi. destruct (Hw i Hi) as [H0 H1]. destruct (H1 Hint) as [zz Hzz].
+      assert (Ef : Qfloor (wt i) = zz) by (rewrite (Qfloor_comp _ _ Hzz); apply Qfloor_Z).
+      assert (Hq0 : (inject_Z 0 <= inject_Z zz)%Q) by (change (inject_Z 0) with 0%Q; lra).
+      assert (Hz0 : (0 <= zz)%Z) by (rewrite Zle_Qle; exact Hq0).
+      unfold qn, z. rewrite Ef, Z2Nat.id by exact Hz0. exact Hzz. }
+    exists (filter (fun c : list node * nat => 0 <? snd c) (map (fun i => (P i, z i)) L)). split; [split|].
+    - intros c Hc. apply filter_In in Hc. destruct Hc as [Hc Q]. apply Nat.ltb_lt in Q. apply in_map_iff in Hc. destruct Hc as (i & <- & Hi).
+      cbn [fst snd] in *. split; [exact (HP i Hi)|]. split; [lia|]. intros e He Hn. exact (Hcap i e Hi He Hn).
+    - intros e He. rewrite (total_filter_pos I). apply Nat2Z.inj. apply inject_Z_inj_eq. change (qn (total (map (fun i => (P i, z i)) L) e) == qn (f e))%Q.
+      rewrite (total_as_sum P wt z e L Hz). unfold L. exact (Qeq_trans _ _ _ (Hf e He) (Hflow e He)).
+    - apply (Nat.le_trans _ (length (map (fun i => (P i, z i)) L))).
+      + generalize (map (fun i => (P i, z i)) L). clear. induction l as [|x l IH]; cbn [filter length]; [lia|]. destruct (0 <? snd x); cbn [length]; lia.
+      + rewrite map_length. unfold L, layers. rewrite map_length, seq_length. lia.
+  Qed.
+
+  Theorem iwd_gives_decomposition_caps (l : list (list node * nat)) : iwd E s t (kept_edges I) f capn l -> c_k I = length l ->
+    exists P wt, walk_decomposition I P wt /\ ign_within_caps I capn P.
+  Proof.
+    intros [Hw Hf] Hk.
+    assert (H0 : iwd0 E s t (kept_edges I) f l) by (split; [intros c Hc; destruct (Hw c Hc) as (A & B & _); auto|exact Hf]).
+    destruct (iwd_gives_decomposition_walks I f Hflow l H0 Hk) as (P & wt & HD & HPl).
+    exists P, wt. split; [exact HD|]. intros i e Hi He Hn. destruct (HPl i Hi) as (c & Hc & ->). exact (proj2 (proj2 (Hw c Hc)) e He Hn).
+  Qed.
+End BridgeIgn.
+
+Lemma kept_edges_ign I : kept_edges I = kept_ign (g_edges (c_graph I)) (g_src (c_graph I)) (g_snk (c_graph I)) (c_ignore I).
+Proof.
+  unfold kept_edges, kept_ign, kfdc_ignore, is_st. apply filter_ext_in. intros e He. rewrite ErrEncIgnore.mem_edge_app, negb_orb. f_equal. f_equal.
+  unfold st_edges. destruct ((fst e =? g_src (c_graph I))%N || (snd e =? g_snk (c_graph I))%N) eqn:Q.
+  - apply mem_edge_In. apply filter_In. split; [exact He|exact Q].
+  - destruct (mem_edge e (filter (fun e0 => (fst e0 =? g_src (c_graph I))%N || (snd e0 =? g_snk (c_graph I))%N) (g_edges (c_graph I)))) eqn:M; [|reflexivity].
+    apply mem_edge_In in M. apply filter_In in M. destruct M as [_ M]. congruence.
+Qed.
+
+(* the oracle with an ignore list decides the least number of walks of a decomposition of the instance whose walks pass every ignored edge
+   at most as often as the capacity list allows and every source/sink edge at most once *)
+Theorem oracle_with_ignore_list_decides_minimum (I : kfdc_inst) (capl fl : list (PathEnc.edge * nat)) (kmax : nat) :
+  c_int I = true ->
+  (forall e, In e (kept_edges I) -> (flow_of I e == qn (fnat fl e))%Q) ->
+  let capn := capn_ign (g_src (c_graph I)) (g_snk (c_graph I)) capl in
+  match min_wfd_model_ign (g_edges (c_graph I)) (g_src (c_graph I)) (g_snk (c_graph I)) (c_ignore I) capl fl kmax with
+  | Some k => k <= kmax /\ (exists P wt, walk_decomposition (kfdc_with_k I k) P wt /\ ign_within_caps (kfdc_with_k I k) capn P) /\
+              (forall j P wt, walk_decomposition (kfdc_with_k I j) P wt -> ign_within_caps (kfdc_with_k I j) capn P -> k <= j)
+  | None => forall j P wt, walk_decomposition (kfdc_with_k I j) P wt -> ign_within_caps (kfdc_with_k I j) capn P -> kmax < j
+  end.
+Proof.
+  intros Hint Hflow capn.
+  pose proof (min_wfd_model_ign_correct (g_edges (c_graph I)) (g_src (c_graph I)) (g_snk (c_graph I)) (c_ignore I) capl fl kmax) as H. cbv zeta in H.
+  rewrite <- (kept_edges_ign I) in H. fold capn in H.
+  assert (Hfwd : forall j P wt, walk_decomposition (kfdc_with_k I j) P wt -> ign_within_caps (kfdc_with_k I j) capn P ->
+            exists l, iwd (g_edges (c_graph I)) (g_src (c_graph I)) (g_snk (c_graph I)) (kept_edges I) (fnat fl) capn l /\ length l <= j).
+  { intros j P wt HD HC. exact (decomposition_gives_iwd_caps (kfdc_with_k I j) (fnat fl) capn Hint Hflow P wt HD HC). }
+  destruct (min_wfd_model_ign _ _ _ (c_ignore I) capl fl kmax) as [k|].
+  - destruct H as (H1 & (l & Hl & Hlen) & H3). split; [exact H1|]. split.
+    + apply (iwd_gives_decomposition_caps (kfdc_with_k I k) (fnat fl) capn Hflow l Hl). cbn [kfdc_with_k c_k]. symmetry. exact Hlen.
+    + intros j P wt HD HC. destruct (Hfwd j P wt HD HC) as (l' & Hl' & Hlen'). specialize (H3 l' Hl'). lia.
+  - intros j P wt HD HC. destruct (Hfwd j P wt HD HC) as (l' & Hl' & Hlen'). specialize (H l' Hl'). lia.
 Qed.
